@@ -179,6 +179,25 @@ def r3_isolation(ctx, prog):
         else:
             odd = sorted(x for x in rets if not (re.match(r"^(I18nContext#I18nContext|I18nContext::\w+)\(RwSignal::new\(", x) or x.startswith("context::init_")))
             r.viol("R3:%s#returns" % nm, "on some path the sub-context handed back is not %s but `%s`: parent and sub-context would share one locale" % (what, (odd or sorted(rets))[0][:160]), file=bb.file, line=bb.line)
+    # who may look an existing context up at all: building the main context (reuse check), building a sub-context (reads the parent
+    # once, untracked - checked below), use_i18n_context, and the translation registry; any other body that reaches for the ambient
+    # context while a (sub-)context is being built can wire the two together (a derived initial-locale signal, a shared memo ..)
+    want_readers = ["context::init_subcontext_with_options", "context::provide_i18n_context_with_options_inner", "context::use_i18n_context", "fetch_translations::register::RegisterCtx::<L>::register"]
+    readers = set()
+    for n2, bb in prog.bodies.items():
+        if bb.crate != "leptos_i18n" or not any(re.search(r"prelude::(use_context|expect_context)$", callee_name(t2) or "") for _i2, t2 in bb.calls()):
+            continue
+        root2 = M._root(n2).split("leptos_i18n::")[-1]
+        own2 = M.owner_of(prog, n2).split("leptos_i18n::")[-1]
+        readers.add(root2 if root2 in want_readers or own2 not in want_readers else own2)      # (a private helper of an allowed reader is that reader)
+    readers = sorted(readers)
+    extra_r = [x for x in readers if x not in want_readers]
+    if extra_r:
+        r.viol("R3:who-reads-ambient-context", "the ambient context is also looked up in %s: a context built there can follow (or be followed by) another one" % extra_r, file=C)
+    elif "context::init_subcontext_with_options" not in readers:
+        r.missing("use_context in init_subcontext_with_options")
+    else:
+        r.inst("who looks the ambient context up", ", ".join(x.split("::")[-1] for x in readers))
     fn = ctx.ast.fn(C, "init_subcontext_with_options")
     if fn is not None:
         # the parent context must not be read inside a closure (Memo / Effect)
@@ -246,7 +265,11 @@ def run(ctx):
         reactmacros.check(ctx, r5, "R5")
     except _absint.Unknown as u:
         r5.viol("R5:undecided", "the generators cannot be interpreted on the current code (%s): not decided on this tree (fail closed)" % str(u)[:300])
-    return [r1_single_state(ctx), r2_reread(ctx), r3_isolation(ctx, prog), r5]
+    from rules import entrytable
+    r6 = Rule("C16.R6", "each macro reads the locale the way its name says (tracked context / untracked context / locale value)",
+              "`every reactive accessor created before or after (t!, t_string!, ...) ... observe the most recently set locale`: `t_string!` inside a memo or effect follows set_locale only if it reads the context's locale *tracked*; an entry point or wrapper that remaps it to the untracked read freezes every subscriber created before the set", floor=4)
+    entrytable.check(ctx, r6, "R6")
+    return [r1_single_state(ctx), r2_reread(ctx), r3_isolation(ctx, prog), r5, r6]
 
 
 MANIFEST_ENTRY = {
